@@ -14,6 +14,24 @@ CHECKS = {
    "DESIGN.md section 5 C07"),
 }
 
+CHECKS.update({
+ "C01": ("vsched", "stateless model checking of the real actor loop: deviation-bounded DFS over task-level schedules x scenario grid, trace-automaton oracle",
+   "For each scenario (Send / thread-local actor x spawn variant x callback program incl. Err/panic/self-kill x exit cause x racing senders, child exit, pg event) every task-level schedule with at most 2 (quick) / 3 (thorough, core set) deviations from the FIFO default is executed on the real code; a per-actor automaton over the Enter/Tick/Exit/Cancelled trace decides overlap, order, once-ness and the post_stop rules.",
+   "task granularity (switches only where a task blocks, finishes or spawns); default build only", "DESIGN.md section 5 C01"),
+ "C02": ("vsched", "stateless model checking of the real send path: exhaustive DFS with sleep sets (2 senders) + deviation-bounded DFS, ledger and real-time-order oracle",
+   "Senders, a closer (none/stop/kill/drain/exit path) and the real mailbox or real consumer actor; a decision point before every atomic, lock and channel operation of senders and closer. 2x1 cores are explored completely, larger ones up to a deviation bound.",
+   "sequential consistency; tokio channel operations atomic; 2-3 senders x 1-2 messages", "DESIGN.md section 5 C02"),
+ "C03": ("vsched", "stateless model checking of the real actor loop: deviation-bounded DFS over the arrival point of kill/stop/supervision events, logical-time oracle",
+   "The arrival of kill(), stop() and a supervision event (enqueued synchronously through a pg monitor) relative to every callback of the actor is explored by schedule enumeration; the oracle compares the logical time of callback Enter/Tick/Exit events with the return time of the request.",
+   "task granularity: the pick in listen_in_priority and the first poll of the chosen callback are one step", "DESIGN.md section 5 C03"),
+ "C04": ("vsched", "stateless model checking + crash-point enumeration (task dropped before its k-th poll, all k) on the real code, supervisor-log oracle",
+   "Failure site x Err/panic x exit cause x actor kind x busy/idle supervisor, plus every abort point of the actor task, each under a deviation-bounded schedule DFS; the supervisor's log must hold [Started?] + exactly one correctly classified terminal event; bystander and stranger undisturbed; join handle completes.",
+   "task granularity; thread-local actors never carry state (documented)", "DESIGN.md section 5 C04"),
+ "C06": ("vsched", "stateless model checking at sync-operation granularity of the real exit path vs. waiters; hang detection by the scheduler",
+   "Actor A (named, pg member and monitor, one child, supervised) exits by stop/kill/drain/Err/panic/abort while four waiters (parked before, two concurrent, one after) use wait/*_and_wait/join handle; decision points before every atomic, lock, map, notify and channel operation of the waiters and of A's task; snapshots of status/registry/pg/tree at the instant each wait returns; lost wake-ups surface as a scheduler-proved hang.",
+   "sequential consistency; tokio Notify/channel operations atomic; DashMap whole-map operations atomic w.r.t. guarded accesses", "DESIGN.md section 5 C06"),
+})
+
 NOT_YET = {}
 
 def main():
